@@ -480,3 +480,18 @@ PROPS["C03"] = dict(
     assumptions=["stand-ins as in C04"],
     harnesses=[KD[n] for n in ("rn_len_0", "rn_len_2", "rn_len_3", "rn_len_4", "kern_twin_must_fail")],
 )
+
+
+F_GLRSPAN = ["rustemo/src/glr/parser.rs: GlrParser::reducer (statement `let span = if path.parents.is_empty() {..} else {..};`, sliced verbatim)"]
+
+
+def gsh(name, what, **kw):
+    return h("e2", "glrspan::proofs::" + name, what, "0..3 children with ordered symbolic spans (layout gaps allowed), 1-2 packed possibilities per child, symbolic root head span/position; unwind 8",
+             F_GLRSPAN, timeout=900, mem_gb=8, cost=1, extra=NOMEM, **kw)
+
+
+GLRSPAN = [gsh("glr_span_0", "GLR empty reduction span"), gsh("glr_span_1", "GLR solution span, 1 child"), gsh("glr_span_2", "GLR solution span, 2 children"),
+           gsh("glr_span_3", "GLR solution span, 3 children"), gsh("glr_span_twin_must_fail", "vacuity twin (must FAIL)", expect_fail=True)]
+PROPS["C13"]["harnesses"] += GLRSPAN
+PROPS["C13"]["explanation"] += " (4) GLR: the span given to a new solution in the reducer (sliced) runs from the first child's start to the last child's end; an empty solution gets the zero-width span at the end of the root head's span."
+PROPS["C13"]["residual"] = "the rest of GLR span threading (token spans created by the shifter, spans of heads created for lexical ambiguity); ordering/non-overlap of all leaves of a whole tree as a global statement (follows from the step facts by induction, not decided as a whole)"
